@@ -796,7 +796,11 @@ var c14names = []string{"a.txt", "dir/original.go", "with space.txt", "ünï.c",
 	// names that look like other notations: C-quoted (git core.quotePath, GNU diff), shell-quoted, prefixed, special
 	"\"draft\"", "\"final copy\"", "\"\\303\\274.c\"", "'single'", "a/x.go", "b/x.go", "dev/null", "\"", "\"\"", " lead", "trail ", "\\\"x\\\"", "\ufeffbom.txt", "x#y", "~"}
 
-func c14fileInfo(r *rand.Rand) *mdiff.FileInfo {
+// c14fileInfo: with special set, a sixth of the timestamps are ones that
+// programs treat specially (not for texts handed to GNU patch: patch takes an
+// epoch timestamp to mean that the file does not exist, a convention of the
+// tool, not of the format).
+func c14fileInfo(r *rand.Rand, special bool) *mdiff.FileInfo {
 	if r.IntN(3) == 0 {
 		return nil
 	}
@@ -807,6 +811,20 @@ func c14fileInfo(r *rand.Rand) *mdiff.FileInfo {
 	mk := func() time.Time {
 		if r.IntN(3) == 0 {
 			return time.Time{}
+		}
+		if special && r.IntN(6) == 0 {
+			// timestamps that programs treat specially: the Unix epoch (in several
+			// zones), its neighbours, the ends of the 32-bit time_t range, years 1,
+			// 1601, 1900, 9999, a leap day
+			zones := []*time.Location{time.UTC, time.FixedZone("", -8*3600), time.FixedZone("", 5*3600+1800)}
+			z := zones[r.IntN(len(zones))]
+			special := []time.Time{
+				time.Unix(0, 0), time.Unix(0, 1000), time.Unix(1, 0), time.Unix(-1, 0), time.Unix(0, 999999000),
+				time.Unix(1<<31-1, 0), time.Unix(1<<31, 0), time.Unix(-1<<31, 0), time.Unix(1<<32, 0),
+				time.Date(1, 1, 2, 0, 0, 1, 0, time.UTC), time.Date(1601, 1, 1, 0, 0, 0, 0, time.UTC), time.Date(1900, 1, 1, 0, 0, 0, 0, time.UTC),
+				time.Date(9999, 12, 30, 23, 59, 59, 999999000, time.UTC), time.Date(2000, 2, 29, 12, 0, 0, 0, time.UTC), time.Date(1969, 12, 31, 16, 0, 0, 0, time.FixedZone("", -8*3600)),
+			}
+			return special[r.IntN(len(special))].In(z)
 		}
 		zone := time.FixedZone("", []int{0, -7 * 3600, 5*3600 + 1800, 13 * 3600, -3600 * 11}[r.IntN(5)])
 		us := []int{0, 1, 123456, 500000, 999999, 120000}[r.IntN(6)]
@@ -985,7 +1003,7 @@ func c14shifted(c *fw.Ctx, r *rand.Rand, delta int) {
 		k.noApply = false
 	}
 	ok, pv, stack := fw.Try(func() {
-		fi := c14fileInfo(r)
+		fi := c14fileInfo(r, true)
 		k.checkUnified(cs, fi)
 		k.checkNormal(cs)
 		k.checkContext(cs, fi)
@@ -1336,7 +1354,7 @@ func runC14(c *fw.Ctx) {
 		ext := k%patchEvery == 0
 		left, right := c14randomPair(r, 40, ext)
 		n := r.IntN(5)
-		fi := c14fileInfo(r)
+		fi := c14fileInfo(r, !ext)
 		texts, nontr := c14one(c, left, right, n, fi)
 		c.Add("cases", 1)
 		if nontr {
